@@ -13,6 +13,7 @@
 
 #include <asmjit/a64.h>
 #include <memory>
+#include <set>
 #include <unordered_set>
 
 using namespace asmjit;
@@ -51,6 +52,7 @@ void vh_init(const vh::Opts& o, vh::Ctx& ctx) {
       }
     }
   }
+  xi::allow_rel_operands() = true;      // rel8/rel32 operands are instantiated as a label bound at the instruction
   g_mc32.reset(new oracle::LlvmMc(oracle::Target::X86_32));
   g_mc64.reset(new oracle::LlvmMc(oracle::Target::X86_64));
   auto vit = o.kv.find("vendor-out");
@@ -104,11 +106,11 @@ bool vh_enum(const vh::Opts& o, uint64_t k, vh::Case& out) {
 rc::Gen<vh::Case> vh_gen(const vh::Opts&) {
   using namespace rc;
   int nforms = int(g_db.forms.size());
-  return gen::apply([](int variant, int mode, int form, std::vector<int> ch) {
-      vh::Case c; c.cfg = {variant, mode ? 32 : 64, form, -1};
+  return gen::apply([](int variant, int mode, int form, int unsized, std::vector<int> ch) {
+      vh::Case c; c.cfg = {variant, mode ? 32 : 64, form, -1, (unsized >= 80 ? 1 : 0) | (unsized % 10 == 7 ? 2 : 0)};      // cfg[4] & 1: memory operands without a size; & 2: implicit register operands passed explicitly
       vh::Op op; for (int v : ch) op.push_back(v);
       c.ops.push_back(op); return c; },
-    gen::weightedElement<int>({{3, 0}, {1, 1}, {5, 2}, {1, 4}}), vh::irange<int>(0, 1), vh::irange<int>(0, nforms - 1),
+    gen::weightedElement<int>({{3, 0}, {1, 1}, {5, 2}, {1, 4}}), vh::irange<int>(0, 1), vh::irange<int>(0, nforms - 1), vh::irange<int>(0, 99),
     gen::container<std::vector<int>>(size_t(kChoices + 8), vh::irange<int>(0, 0x3fffffff)));
 }
 
@@ -242,13 +244,49 @@ void vh_run(const vh::Case& c, vh::Ctx& ctx) {
   xi::XInst x = xi::instantiate(f, inst_mode, ch, /*allow_options=*/allowed);
   if (!x.valid) { ctx.cls("skip_uninstantiable"); return; }
   x.mode = mode;
+  if (c.cfg.size() > 4 && (c.cfg[4] & 1) && K < 0 && variant == 0) {
+    bool any = false;
+    for (xi::Opnd& o : x.ops) if (o.kind == xi::Opnd::kMem && o.mem.size_bits != 0) { o.mem.size_bits = 0; any = true; }
+    if (any) {
+      // An unsized operand denotes a DB form only if the size follows from the rest of the instruction. That is the case for {1toN}
+      // broadcast operands (the element size belongs to the mnemonic: zmm, zmm, [m]{1to32} can only be 16-bit elements). For plain
+      // memory operands (idiv [m], fsubr [m], jmp [m] near/far, movzx r16, [m]) the validator (any size matches), the encoder
+      // (kAmbiguousOperandSize) and the lenient encoder (picks one) legitimately differ - those instances are not judged.
+      bool has_bcst = false;
+      for (const xi::Opnd& o : x.ops) if (o.kind == xi::Opnd::kMem && o.mem.bcst > 0) has_bcst = true;
+      std::set<int> sizes;
+      auto itn = g_db.by_name.find(f.name);
+      if (has_bcst && itn != g_db.by_name.end()) for (int gi : itn->second) {
+        const xdb::Form& G = g_db.forms[size_t(gi)];
+        if (!G.mode_ok(mode) || G.is_apx()) continue;
+        for (const xdb::Op& d : G.ops) if (d.is_mem() && d.bcstSize > 0) sizes.insert(d.bcstSize);
+      }
+      if (sizes.size() != 1) { ctx.cls("unsized_memory_operand_ambiguous_not_judged"); return; }
+      ctx.cls("unsized_memory_operand");
+    }
+  }
   if ((x.options & (xi::kOptXrelease | xi::kOptXacquire)) && !(x.options & xi::kOptLock)) {
     // XRELEASE MOV mem, r/imm (no LOCK) is architecturally valid and listed by the DB, but AsmJit treats XACQUIRE/XRELEASE as modifiers
     // of LOCK only: the validator refuses it and the lenient encoder silently drops the prefix. Known finding; excluded by construction.
     if (ctx.is_known("xrelease-without-lock:" + f.name)) { ctx.known_excluded("xrelease-without-lock:" + f.name); x.options &= ~uint32_t(xi::kOptXrelease | xi::kOptXacquire); }
   }
+  bool explicit_implicit = false;
+  if (c.cfg.size() > 4 && (c.cfg[4] & 2) && K < 0 && variant == 0 && f.hasImplicit) {
+    // AsmJit's API also takes the implicit (fixed) register operands explicitly - jecxz(rcx, L), mul(rdx, rax, r8), cmpxchg(m, r, eax).
+    // Whether such a spelling is supported is AsmJit's choice; validate() and the assembler must make the same one.
+    xi::XInst y = x; y.ops.clear(); size_t j = 0; bool ok = true;
+    for (size_t oi = 0; oi < f.ops.size() && ok; oi++) {
+      const xdb::Op& d = f.ops[oi];
+      if (xt::is_explicit(d)) { if (j < x.ops.size()) y.ops.push_back(x.ops[j++]); else ok = false; continue; }
+      xi::RC rc; int fixed = -1;
+      if (d.is_reg() && !d.is_mem() && xi::db_reg_class(d.reg, rc, fixed) && fixed >= 0) { xi::Opnd o; o.kind = xi::Opnd::kReg; o.reg.rc = rc; o.reg.id = fixed; o.db_index = int(oi); y.ops.push_back(o); }
+      else ok = false;
+    }
+    if (ok && j == x.ops.size() && y.ops.size() <= 6 && y.ops.size() > x.ops.size()) { x = y; explicit_implicit = true; ctx.cls("implicit_operands_passed_explicitly"); }
+  }
   std::string text = xi::render(x);
   std::string desc = std::string(mode == 64 ? "x64 " : "x86 ") + text + "  [" + form_sig(f) + "]";
+  if (variant == 2) for (const xi::Opnd& o : x.ops) if (o.kind == xi::Opnd::kRel) { ctx.cls("nearmiss_skip_rel_form"); return; }
 
   if (variant == 1 || !allowed) {
     // ---- (2) mode the database excludes ----
